@@ -1,11 +1,87 @@
 import EpdVerif.Drivers.Dsl
 import EpdVerif.Gen.Epd7in5b_v2
-/-! model of `src/epd7in5b_v2/mod.rs` (STUB: programs not yet transcribed) -/
+/-! model of `src/epd7in5b_v2/mod.rs` -/
 namespace EpdVerif.Drivers.Epd7in5b_v2
 open EpdVerif
 open EpdVerif.Gen.Epd7in5b_v2
 
+/-- `wait_until_idle` = `interface.wait_until_idle_with_cmd(.., IS_BUSY_LOW, GetStatus)` -/
+def W : Act := .waitCmd IS_BUSY_LOW Command.GetStatus
+
+def sendResolution : List Act :=
+  [.cmd Command.TconResolution, .data [shr8 WIDTH 8], .data [u8 WIDTH],
+   .data [shr8 HEIGHT 8], .data [u8 HEIGHT]]
+
+def init : List Act :=
+  [.reset 200000 2000] ++
+  cmdData Command.PowerSetting [0x07, 0x07, 0x3F, 0x3F] ++
+  [.cmd Command.PowerOn, W] ++
+  cmdData Command.PanelSetting [0x0F] ++
+  cmdData Command.TconResolution [0x03, 0x20, 0x01, 0xE0] ++
+  cmdData Command.DualSpi [0x00] ++
+  cmdData Command.VcomAndDataIntervalSetting [0x11, 0x07] ++
+  cmdData Command.TconSetting [0x22] ++
+  cmdData Command.SpiFlashControl [0x00, 0x00, 0x00, 0x00] ++
+  [W]
+
+def updateAchromatic (b : Bytes) : List Act :=
+  [.cmd Command.DataStartTransmission1, .data b, .cmd Command.DataStop]
+
+def updateChromatic (c : Bytes) : List Act :=
+  [.cmd Command.DataStartTransmission2, .data c, .cmd Command.DataStop, W]
+
+/-- `update_frame`: `&buffer[..NUM_DISPLAY_BITS]` is evaluated (and may panic) before the
+    `cmd_with_data` call it is an argument of -/
+def updateFrame (b : Bytes) : List Act :=
+  [W] ++ assertA (NUM_DISPLAY_BITS ≤ b.length) ++
+  cmdData Command.DataStartTransmission1 (b.take NUM_DISPLAY_BITS) ++
+  cmdData Command.DataStartTransmission2 (b.drop NUM_DISPLAY_BITS) ++
+  [.cmd Command.DataStop]
+
+/-- `update_partial_frame2` -/
+def updatePartial2 (b : Bytes) (x y w h : Nat) : List Act :=
+  let hrstUpper : UInt8 := u8 (x / 8) >>> 5
+  let hrstLower : UInt8 := u8 ((x / 8) <<< 3)
+  let hredUpper : UInt8 := u8 ((x + w) / 8 - 1) >>> 5
+  let hredLower : UInt8 := u8 (((x + w) / 8 - 1) <<< 3) ||| 0b111
+  let vrstUpper : UInt8 := shr8 y 8
+  let vrstLower : UInt8 := u8 y
+  let vredUpper : UInt8 := shr8 (y + h - 1) 8
+  let vredLower : UInt8 := u8 (y + h - 1)
+  let ptScan : UInt8 := 0x01
+  let half := b.length / 2
+  [W] ++
+  assertA ((x + w) / 8 ≥ 1) ++      -- `(x + width) / 8 - 1`
+  assertA (y + h ≥ 1) ++            -- `y + height - 1`
+  [.cmd Command.PartialIn] ++
+  cmdData Command.PartialWindow
+    [hrstUpper, hrstLower, hredUpper, hredLower, vrstUpper, vrstLower, vredUpper, vredLower,
+     ptScan] ++
+  cmdData Command.DataStartTransmission1 (b.take half) ++
+  cmdData Command.DataStartTransmission2 (b.drop half) ++
+  [.cmd Command.DisplayRefresh, W, .cmd Command.PartialOut]
+
 def prog (_f : Feat) (_d : DState) : Op → Option (List Act)
+  | .new => some init
+  | .wake => some init
+  | .sleep => some ([W, .cmd Command.PowerOff, W] ++ cmdData Command.DeepSleep [0xA5])
+  | .upd b => some (updateFrame b)
+  | .part _ _ _ _ _ => some [.panic]
+  | .disp => some [W, .cmd Command.DisplayRefresh]
+  | .updisp b => some (updateFrame b ++ [.cmd Command.DisplayRefresh])
+  | .clear =>
+    some ([W] ++ sendResolution ++
+      [.cmd Command.DataStartTransmission1, .rep 0xFF (WIDTH / 8 * HEIGHT),
+       .cmd Command.DataStartTransmission2, .rep 0x00 (WIDTH / 8 * HEIGHT),
+       .cmd Command.DataStop,
+       .cmd Command.DisplayRefresh])
+  | .bg c => some [.upd (fun d => { d with bg := c })]
+  | .lut _ => some [.panic]
+  | .wait => some [W]
+  | .color b c => some (updateAchromatic b ++ updateChromatic c)
+  | .achro b => some (updateAchromatic b)
+  | .chro c => some (updateChromatic c)
+  | .part2 b x y w h => some (updatePartial2 b x y w h)
   | _ => none
 
 def panel (f : Feat) : Panel :=
